@@ -151,7 +151,7 @@ prop('C06', COMMON +
      '(same-type, assignable, meet, subtype) reads every identity field of the payload structs it compares from both sides. TYPE-WALKER: every structural recursion '
      'over the checker\'s Type (validation of instantiations, substitution, placeholder search) reads every child position '
      '(type arguments, parameter types, return type).',
-     [gate.run_gate, gate.run_errset, gate.run_assign_all_paths, lex_bounds.run_int_range, scope.run_iflet_else,
+     [gate.run_gate, gate.run_errset, gate.run_row_by_field_index, gate.run_assign_all_paths, lex_bounds.run_int_range, scope.run_iflet_else,
       lambda prog, tier, repo: scope.run_reentrant_restore(prog, tier, repo, crates=('samlang_checker',)), relation.run, relation.run_pairwise, gate.run_exhaustive_gate, gate.run_placeholder_ordinal, gate.run_private_guard, type_walker.make(('samlang_checker',), 6), TI.make(['T-chk', 'T-ssa'])])
 
 prop('C08', COMMON +
@@ -164,7 +164,7 @@ prop('C08', COMMON +
      'child printed in an undelimited position (unary operand, binary operands, lambda body, chain base) reaches the '
      'precedence decider; the plain printer may take a left operand only behind an equal-precedence test and a right operand '
      'only behind same-operator + associative-operator tests (reported as the known regrouping finding). TYPE-WALKER: the '
-     'annotation printer visits every child position. PLAIN-POSITION: a child the printer emits without a parenthesis decision is parsed with the top production of the expression grammar (productions ordered by fall-through). CONTINUATION-LEVELS: the look-ahead path that continues a parsed expression applies the continuation of every operator level. PAREN-UNARY-LEVEL, LIST-END-TOKEN, LITERAL-SOURCE as described in DESIGN.md. PEEK-THEN-VISIT: where a function of the walker family inspects the variant of a child node it reaches through a slot of its parent, the variants it does not name are still handed to the family\'s visitor for that node type on every path (they are not treated as leaves). PEEK-THEN-VISIT: where a function of the walker family inspects the variant of a child node it reaches through a slot of its parent, the variants it does not name are still handed to the family\'s visitor for that node type on every path (they are not treated as leaves). Does not decide layout.',
+     'annotation printer visits every child position. PLAIN-POSITION: a child the printer emits without a parenthesis decision is parsed with the top production of the expression grammar (productions ordered by fall-through). CONTINUATION-LEVELS: the look-ahead path that continues a parsed expression applies the continuation of every operator level. PAREN-UNARY-LEVEL, LIST-END-TOKEN, LITERAL-SOURCE as described in DESIGN.md. PEEK-THEN-VISIT: where a function of the walker family inspects the variant of a child node it reaches through a slot of its parent, the variants it does not name are still handed to the family\'s visitor for that node type on every path (they are not treated as leaves). PEEK-THEN-VISIT: where a function of the walker family inspects the variant of a child node it reaches through a slot of its parent, the variants it does not name are still handed to the family\'s visitor for that node type on every path (they are not treated as leaves). ROW-BY-FIELD-INDEX: the abstract pattern of an object-pattern element is stored in the exhaustiveness row at the index of its field (`field_order`), and nothing is appended to that row inside the loop over the elements (rows keep one column per field). Does not decide layout.',
      [printer_rules.run_prec_iso, printer_rules.run_literal_parity, printer_rules.run_paren_assoc, printer_rules.run_paren_sink, printer_rules.run_paren_unary_level, printer_rules.run_plain_position, printer_rules.run_continuation_levels, printer_rules.run_pattern_parens, shape.run_literal_source, parser_progress.run_list_end_token, type_walker.make(('samlang_printer',), 1), TI.make(['T-prt'])])
 
 prop('C09', COMMON +
@@ -261,8 +261,8 @@ prop('C10', COMMON +
      'global_cx mutated under the same keys), ERRORS-OVERWRITE (recheck re-reports the previous syntax errors before '
      'overwriting errors[m]), DIRTY-COVERS (the dirty set handed to affected_set is built from every request component '
      'under which parsed_modules is mutated; every module announced to recheck as re-parsed is parsed on every path). '
-     'UPDATE-ORDER affected-set: a mutator that never removes sources computes the re-check set on the rebuilt graph. ERRORS-OVERWRITE clear: every rechecked module gets its errors entry overwritten. GC-ROOTS gc-requeue: the module list is queued for marking on every path. Does not decide that the affected set is large enough (graph semantics).',
-     [incremental.run_sigkey, incremental.run_order, incremental.run_errors, incremental.run_dirty, incremental.run_sig_all, gc_rules.run_gc_roots],
+     'UPDATE-ORDER affected-set: a mutator that never removes sources computes the re-check set on the rebuilt graph. ERRORS-OVERWRITE clear: every rechecked module gets its errors entry overwritten. GC-ROOTS gc-requeue: the module list is queued for marking on every path. AFFECTED-CLOSURE: the recheck set returned by the dependency graph is the closure over the import edges of the closure over the imported-by edges of the changed modules (recheck rewrites the stored diagnostics of every module of the set, and checking a module can produce diagnostics located in its dependencies). Does not decide that the affected set is large enough (graph semantics).',
+     [incremental.run_sigkey, incremental.run_order, incremental.run_errors, incremental.run_dirty, incremental.run_sig_all, incremental.run_affected_closure, gc_rules.run_gc_roots],
      ['affected_set (forward closure of the reverse closure of the dirty set) contains every module whose diagnostics can change'])
 
 prop('C03', COMMON +
@@ -303,7 +303,7 @@ prop('C05', COMMON +
      'dominated by recording a type for the identifier (get_captured unwraps it). PARSER-PROGRESS: clause "loops forever" for the '
      'parser - an interprocedural must-consume analysis over 75 token classes (summaries per production, specialised on constant '
      'keyword/operator arguments) shows that every trip through each of the parser\'s token-driven loops consumes a token. GATE: '
-     'parse errors land in the error set the compile entry point tests. SAVE-CALL-RESTORE: the parser\'s type-parameter scope saved before a member is restored on every path after it. LOC-MODULE: the parser builds no location of the dummy module (union with a real one asserts). Does not decide unbounded recursion or stack depth.',
-     [lex_bounds.run, lex_bounds.run_int_range, shape.run_fabricate, shape.run_shape, str_slice.run, gate.run_binder_write, parser_progress.run, gate.run_gate, scope.run_save_call_restore, loc_enclose.run_loc_module],
+     'parse errors land in the error set the compile entry point tests. SAVE-CALL-RESTORE: the parser\'s type-parameter scope saved before a member is restored on every path after it. LOC-MODULE: the parser builds no location of the dummy module (union with a real one asserts). ROW-BY-FIELD-INDEX: the abstract pattern of an object-pattern element is stored in the exhaustiveness row at the index of its field (`field_order`), and nothing is appended to that row inside the loop over the elements (rows keep one column per field). Does not decide unbounded recursion or stack depth.',
+     [lex_bounds.run, lex_bounds.run_int_range, shape.run_fabricate, shape.run_shape, gate.run_row_by_field_index, str_slice.run, gate.run_binder_write, parser_progress.run, gate.run_gate, scope.run_save_call_restore, loc_enclose.run_loc_module],
      ['lengths of in-memory slices are < 2^63 (usize additions on lengths do not overflow)',
       'A-05.1: parenthesised lists reaching a Tuple construction are non-empty'])
